@@ -418,8 +418,24 @@ impl<'tcx> Dumper<'tcx> {
             Ok(val) => self.const_value(val, t),
             Err(_) => {
                 if let mir::Const::Unevaluated(uv, _) = c.const_ {
-                    if let Ok(val) = tcx.const_eval_poly(uv.def) {
-                        return self.const_value(val, t);
+                    // (a trait's associated const without a default, used in a default method, has no body)
+                    let has_body = uv.def.as_local().map_or(true, |l| tcx.hir_maybe_body_owned_by(l).is_some());
+                    if has_body {
+                        if let Ok(val) = tcx.const_eval_poly(uv.def) {
+                            return self.const_value(val, t);
+                        }
+                    }
+                }
+                if let mir::Const::Unevaluated(uv, _) = c.const_ {
+                    // `Self::CONST` inside a trait's default method: resolved per implementing type by the engine
+                    if matches!(tcx.def_kind(uv.def), DefKind::AssocConst { .. }) {
+                        if let Some(tr) = tcx.trait_of_assoc(uv.def) {
+                            return J::Obj(vec![
+                                ("ty", num(self.ty(t))),
+                                ("assoc_const", s(tcx.item_name(uv.def).as_str())),
+                                ("trait", s(self.name(tr))),
+                            ]);
+                        }
                     }
                 }
                 J::Obj(vec![("ty", num(self.ty(t))), ("other", s(format!("{:?}", c.const_)))])
@@ -852,9 +868,14 @@ impl rustc_driver::Callbacks for Cb {
                 }
                 DefKind::Const { .. } | DefKind::AssocConst { .. } => {
                     let t = tcx.type_of(did).instantiate_identity().skip_norm_wip();
-                    let v = match tcx.const_eval_poly(did) {
-                        Ok(val) => d.const_value(val, t),
-                        Err(_) => J::Null,
+                    // a trait's associated const without a default has no body to evaluate
+                    let v = if tcx.hir_maybe_body_owned_by(ld).is_none() {
+                        J::Null
+                    } else {
+                        match tcx.const_eval_poly(did) {
+                            Ok(val) => d.const_value(val, t),
+                            Err(_) => J::Null,
+                        }
                     };
                     let mut o = vec![
                         ("name", s(d.name(did))),
